@@ -19,6 +19,7 @@
     reorder_mut <names>                  via=mut|alloc
     map_mut <k> <p|->                    x ↦ x + k, the closure panics on its p-th call (0-based)
                                          via=tensor|view|access
+    map_div <k>                          x ↦ k / x: panics on a zero element   via=tensor|view|access
     map_mut_with_index <k> <p|->         x at idx ↦ x + k + code(idx)   via=tensor|view|access
     access_map_mut <names> <k> <p|->     TensorAccess::from(&mut t, names).map_mut_with_index
     set <idx> <v>                        *get_reference_mut(idx)? = v    via=tensor|view|access
@@ -52,6 +53,8 @@
     @ mflat <rows> <cols> <n>            Matrix::from_flat_row_major((rows, cols), 1..=n)
     @ mempty <rows> <cols>               Matrix::empty(7, (rows, cols))
     @ mnew <R>x<C>                       Matrix with the elements 1..R*C; then lines
+    m map_mut|map_mut_with_index <k> <p|->  via=matrix|view   closure panicking on its p-th call
+    m map_div <k>  via=matrix|view        x ↦ k / x (panics on a zero element)
     m <operation of Driver.C11>          insert_row(_with), insert_column(_with), remove_row,
                                          remove_column, retain_mut … with valid or invalid arguments
         → <ok|panic> <R>x<C> len=<stored> use=<items of a walk over the matrix left behind>
@@ -301,7 +304,15 @@ def stepT (s : Option T) (toks : List String) : Option T × String :=
       | some src => (s, showAccesses "tensor" m t.data.length (tensorAccesses src (prod src.shape + 1)))
     | _, none => (s, "bad-op")
   | _ =>
-    match parseOp toks with
+    let parsed : Option (Op String Nat) :=
+      match toks, s with
+      | "map_div" :: k :: _, some t =>
+        -- `|x| k / x`: panics on the first zero element in storage order (access / view forms
+        -- in source order visit the elements in the same order)
+        k.toNat?.map fun k => .mapMut (fun x => k / x) (t.data.findIdx? (· == 0))
+      | "map_div" :: k :: _, none => k.toNat?.map fun k => .mapMut (fun x => k / x) none
+      | _, _ => parseOp toks
+    match parsed with
     | none => (s, "bad-op")
     | some op =>
       match s with
@@ -327,7 +338,31 @@ def showMatrixState (m : Matrix Nat) : String :=
       (m.data.length + 2) with
     | .ok accs => toString accs.length
     | .panic k => s!"panic({k})"
-  s!"{m.rows}x{m.columns} len={m.data.length} use={used}"
+  s!"{m.rows}x{m.columns} len={m.data.length} use={used} data={showNats m.data}"
+
+/-- `Matrix::map_mut` / `map_mut_with_index` (and the `MatrixView` forms, row-major) with a closure
+    that panics on call `panicAt`: the elements visited before it are overwritten, the size and the
+    stored element count are untouched (the loop of `Survivor.mapLoop` over the row-major data,
+    each element paired with its position). -/
+def matrixMapPanic (m : Matrix Nat) (f : Nat → Nat → Nat → Nat) (panicAt : Option Nat) : Matrix.Res Nat :=
+  let indexed := List.zip m.data (List.range m.data.length)
+  let r := mapLoop (fun (p : Nat × Nat) => (f p.1 (p.2 / m.columns) (p.2 % m.columns), p.2)) panicAt indexed 0
+  ⟨{ m with data := r.1.map (·.1) }, if r.2 then some .explicit else none⟩
+
+def matrixClosureOp (m : Matrix Nat) (toks : List String) : Option (Matrix.Res Nat) :=
+  match toks with
+  | "map_mut" :: k :: p :: _ =>
+    match k.toNat?, parsePanicAt p with
+    | some k, some p => some (matrixMapPanic m (fun x _ _ => x + k) p)
+    | _, _ => none
+  | "map_mut_with_index" :: k :: p :: _ =>
+    match k.toNat?, parsePanicAt p with
+    | some k, some p => some (matrixMapPanic m (fun x i j => x + (k * (i + 1) + j)) p)
+    | _, _ => none
+  | "map_div" :: k :: _ =>
+    -- `|x| k / x` on unsigned integers panics on the first zero element
+    k.toNat?.map fun k => matrixMapPanic m (fun x _ _ => k / x) (m.data.findIdx? (· == 0))
+  | _ => none
 
 def step (s : State) (toks : List String) : State × String :=
   match toks with
@@ -403,10 +438,13 @@ def step (s : State) (toks : List String) : State × String :=
     | _, _, _, _ => (s, "bad-op")
   | "m" :: rest =>
     -- the C11 model of the resizing operations: the matrix left behind, also after a panic
-    match s.m, Driver.C11.parseOp rest with
+    match s.m, ((s.m.bind fun m => matrixClosureOp m rest).map Sum.inl).orElse
+        (fun _ => (Driver.C11.parseOp rest).map Sum.inr) with
     | none, some _ => (s, "no-matrix")
-    | some m, some op =>
-      let res := Matrix.exec m op
+    | some m, some opOrRes =>
+      let res := match opOrRes with
+        | .inl r => r
+        | .inr op => Matrix.exec m op
       let out := match res.panic with
         | none => "ok"
         | some .hook => "panic(hook)"
